@@ -286,12 +286,12 @@ pub fn cases(tier: Tier, seed: u64) -> Vec<Case> {
         let (oh, ow) = c.conv_out().unwrap();
         c.f * oh * ow * c.ic * c.k.0 * c.k.1
     };
-    let cfgs = pick(conv_lattice(full), if full { 400 } else { 20 }, seed, if full { 400 } else { 200 }, &size);
+    let cfgs = pick(conv_lattice(full), if full { 12000 } else { 20 }, seed, if full { 600 } else { 200 }, &size);
     for (i, c) in cfgs.into_iter().enumerate() {
         let act = if i % 5 == 0 { acts()[1 + (i / 5) % 4] } else { Act::Linear };
         // activations that fork (leaky) only on small outputs
         let (oh, ow) = c.conv_out().unwrap();
-        let act = if act == Act::LeakyReLU && c.f * oh * ow > 6 { Act::Linear } else { act };
+        let act = if act.forks() && (c.f * oh * ow > 6 || c.sd_class().contains("pad>k-1")) { Act::Linear } else { act };
         out.push(conv_case(c.clone(), act, i % 3 == 1));
     }
     // deconvolution (dilation fixed to 1)
@@ -300,7 +300,7 @@ pub fn cases(tier: Tier, seed: u64) -> Vec<Case> {
         None => usize::MAX,
     };
     let dl: Vec<Cfg> = conv_lattice(full).into_iter().filter(|c| c.d == (1, 1) && c.ih <= 3 && c.iw <= 4 && c.deconv_out().is_some()).collect();
-    let dcfgs = pick(dl, if full { 200 } else { 12 }, seed ^ 0xdec0, if full { 600 } else { 300 }, &dsize);
+    let dcfgs = pick(dl, if full { 3000 } else { 12 }, seed ^ 0xdec0, if full { 800 } else { 300 }, &dsize);
     for (i, c) in dcfgs.into_iter().enumerate() {
         let act = if i % 4 == 0 { Act::Tanh } else { Act::Linear };
         out.push(deconv_case(c.clone(), act, i % 3 == 1));
